@@ -112,8 +112,23 @@ func NewEnv(tier string) (*Env, func(), error) {
 	if verif == "" {
 		verif = "/verif"
 	}
-	env := &Env{Tier: tier, Scratch: dir, Verif: verif, BinDir: verif + "/bin", Repo: "/repo", Private: map[string]any{}}
+	env := &Env{Tier: tier, Scratch: dir, Verif: verif, BinDir: binDir(verif), Repo: RepoDir(), Private: map[string]any{}}
 	return env, func() { os.RemoveAll(dir) }, nil
+}
+
+func binDir(verif string) string {
+	if b := os.Getenv("VERIF_BIN"); b != "" {
+		return b
+	}
+	return verif + "/bin"
+}
+
+// RepoDir is the checkout under test: /repo unless VERIF_REPO names another one.
+func RepoDir() string {
+	if r := os.Getenv("VERIF_REPO"); r != "" {
+		return r
+	}
+	return "/repo"
 }
 
 // WorkerMain runs one shard and speaks the protocol on stdout.
